@@ -21,7 +21,7 @@ type c09Case struct {
 	// pipe: a second profile whose name differs from the first only in letter case ("P") and which has no subject rules; 1: its file is read after, 2: before the profile under test
 	Twin int `json:"twin,omitempty"`
 	// pipe: 1 the profile file, 2 the constrained entity's configuration file, 3 both are symbolic links to files kept in another directory (binary, native directory)
-	Linked int `json:"linked,omitempty"`
+	Linked     int      `json:"linked,omitempty"`
 	Kind       string   `json:"kind"` // "pure" | "pipe"
 	HasList    bool     `json:"hasList"`
 	Attrs      []string `json:"attrs"`
